@@ -4,6 +4,14 @@
  * recv/send/poll are wrapped (-Wl,--wrap=recv,--wrap=send,--wrap=poll); poll reports a
  * descriptor ready exactly when the script has a next answer for it.
  * Protocol: see lean/Percival/Driver/Netbuf.lean (same lines, same order).
+ *
+ * -DHC_BLACKBOX (used when the white-box build no longer compiles, e.g. after a private member was renamed):
+ * netbuf_read.c and netbuf_write.c are compiled separately and only netbuf.h is used.  The same L1 part is
+ * printed and no L2 part.  The two contract guards that read private members are kept by the harness itself:
+ * "a wait is outstanding" (read_cookie/immediate_cookie) = a netbuf_read_wait returned 0 and since then neither
+ * the callback ran nor netbuf_read_wait_cancel was called; "space is reserved" (W->reserved) = a
+ * netbuf_write_reserve returned non-NULL and netbuf_write_consume has not been called since.  Neither file keeps
+ * state outside the objects which `case` frees and re-creates, so cases may share a process as in the white-box build.
  */
 #include <sys/types.h>
 #include <sys/socket.h>
@@ -15,9 +23,14 @@
 
 #include "events.h"
 
+#ifdef HC_BLACKBOX
+/* black-box: the public interface only */
+#include "netbuf.h"
+#else
 /* white-box: the structs and statics of both files */
 #include "netbuf_read.c"
 #include "netbuf_write.c"
+#endif
 
 /* ---------------------------------------------------------------- scripted kernel */
 enum { K_DATA, K_EAGAIN, K_EOF, K_ERR, K_ACCEPT };
@@ -234,6 +247,36 @@ fmt_bytes(char * out, size_t outsz, const uint8_t * b, size_t n)
 }
 
 static int r_waiting(void);
+static int rcb(void *, int);
+
+#ifdef HC_BLACKBOX
+/* the harness's own account of the two contract guards (see the head of the file) */
+static int bb_rwait;		/* a wait is outstanding */
+static int bb_wres;		/* space is reserved */
+
+static int
+bb_wait(size_t k)
+{
+	int rc;
+
+	bb_rwait = 1;
+	if ((rc = netbuf_read_wait(R, k, rcb, NULL)) != 0)
+		bb_rwait = 0;
+	return (rc);
+}
+
+#define R_WAIT(k)	bb_wait(k)
+#define W_RESERVED()	(bb_wres)
+#define W_CONSUME(len)	(bb_wres = 0, netbuf_write_consume(W, (len)))
+#define BB(stmt)	do { stmt; } while (0)
+#define L2(stmt)	((void)0)
+#else
+#define R_WAIT(k)	netbuf_read_wait(R, (k), rcb, NULL)
+#define W_RESERVED()	(W->reserved)
+#define W_CONSUME(len)	netbuf_write_consume(W, (len))
+#define BB(stmt)	((void)0)
+#define L2(stmt)	do { printf(" | "); stmt; } while (0)
+#endif
 
 static int
 rcb(void * cookie, int status)
@@ -244,6 +287,7 @@ rcb(void * cookie, int status)
 
 	(void)cookie;
 	activity++;
+	BB(bb_rwait = 0);	/* the library calls back only after it has dropped the wait */
 	if (status == 0) {
 		/* success: show how much is buffered and the first waitlen bytes of it */
 		netbuf_read_peek(R, &data, &avail);
@@ -261,7 +305,7 @@ rcb(void * cookie, int status)
 			loop_n--;
 			netbuf_read_consume(R, loop_j);
 			r_waitk = loop_k;
-			if (netbuf_read_wait(R, loop_k, rcb, NULL))
+			if (R_WAIT(loop_k))
 				return (-1);
 		} else
 			loop_n = 0;
@@ -280,6 +324,14 @@ failcb(void * cookie)
 	return (0);
 }
 
+#ifdef HC_BLACKBOX
+static int
+r_waiting(void)
+{
+
+	return (bb_rwait);
+}
+#else
 static int
 r_waiting(void)
 {
@@ -319,6 +371,7 @@ print_wl2(void)
 	if (first)
 		putchar('-');
 }
+#endif
 
 static void
 reset(void)
@@ -338,6 +391,7 @@ reset(void)
 	wptr = NULL;
 	wresv = 0;
 	eagain_flavour = 0;
+	BB(bb_rwait = 0; bb_wres = 0);
 	R = netbuf_read_init(rfd);
 	W = netbuf_write_init(wfd, failcb, NULL);
 	if (R == NULL || W == NULL)
@@ -422,8 +476,8 @@ main(void)
 			} else {
 				r_waitk = n;
 				loop_n = 0;
-				printf("%s | ", netbuf_read_wait(R, n, rcb, NULL) ? "fail" : "ok");
-				print_rl2();
+				printf("%s", R_WAIT(n) ? "fail" : "ok");
+				L2(print_rl2());
 			}
 		} else if (hc_is("r_loop", 3)) {
 			/* wait k now; on each of the next n successes consume j and wait k again */
@@ -434,14 +488,14 @@ main(void)
 				loop_k = strtoull(hc_tok[2], NULL, 10);
 				loop_n = strtoull(hc_tok[3], NULL, 10);
 				r_waitk = loop_k;
-				printf("%s | ", netbuf_read_wait(R, loop_k, rcb, NULL) ? "fail" : "ok");
-				print_rl2();
+				printf("%s", R_WAIT(loop_k) ? "fail" : "ok");
+				L2(print_rl2());
 			}
 		} else if (hc_is("r_peek", 0)) {
 			netbuf_read_peek(R, &data, &len);
 			fmt_bytes(hex, sizeof(hex), data, len);
-			printf("peek %zu %s | ", len, hex);
-			print_rl2();
+			printf("peek %zu %s", len, hex);
+			L2(print_rl2());
 		} else if (hc_is("r_consume", 1)) {
 			n = strtoull(hc_tok[1], NULL, 10);
 			netbuf_read_peek(R, &data, &len);
@@ -449,8 +503,8 @@ main(void)
 				printf("contract");
 			} else {
 				netbuf_read_consume(R, n);
-				printf("ok | ");
-				print_rl2();
+				printf("ok");
+				L2(print_rl2());
 			}
 		} else if (hc_is("r_consume_upto", 1)) {
 			/* consume min(j, buffered): lets generators stay valid without tracking the buffer */
@@ -462,14 +516,15 @@ main(void)
 				if (n > len)
 					n = len;
 				netbuf_read_consume(R, n);
-				printf("ok %zu | ", n);
-				print_rl2();
+				printf("ok %zu", n);
+				L2(print_rl2());
 			}
 		} else if (hc_is("r_cancel", 0)) {
 			netbuf_read_wait_cancel(R);
+			BB(bb_rwait = 0);
 			loop_n = 0;
-			printf("ok | ");
-			print_rl2();
+			printf("ok");
+			L2(print_rl2());
 		} else if ((pat = hc_is("net_deliverp", 2)) || hc_is("net_deliver", 1)) {
 			a.kind = K_DATA;
 			a.data = arg_bytes(pat, &a.len);
@@ -511,35 +566,36 @@ main(void)
 			printf("ok");
 		} else if (hc_is("w_reserve", 1)) {
 			n = strtoull(hc_tok[1], NULL, 10);
-			if (W->reserved) {
+			if (W_RESERVED()) {
 				printf("contract");
 			} else {
 				wptr = netbuf_write_reserve(W, n);
+				BB(bb_wres = (wptr != NULL));
 				wresv = n;
-				printf("%s | ", wptr ? "ok" : "fail");
-				print_wl2();
+				printf("%s", wptr ? "ok" : "fail");
+				L2(print_wl2());
 			}
 		} else if ((pat = hc_is("w_consumep", 2)) || hc_is("w_consume", 1)) {
 			data = arg_bytes(pat, &len);
-			if (!W->reserved || len > wresv) {
+			if (!W_RESERVED() || len > wresv) {
 				printf("contract");
 			} else {
 				memcpy(wptr, data, len);
-				printf("%s | ", netbuf_write_consume(W, len) ? "fail" : "ok");
-				print_wl2();
+				printf("%s", W_CONSUME(len) ? "fail" : "ok");
+				L2(print_wl2());
 			}
 			free(data);
 		} else if ((pat = hc_is("w_writep", 2)) || hc_is("w_write", 1)) {
 			data = arg_bytes(pat, &len);
-			if (W->reserved) {
+			if (W_RESERVED()) {
 				printf("contract");
 			} else {
-				printf("%s | ", netbuf_write_write(W, data, len) ? "fail" : "ok");
-				print_wl2();
+				printf("%s", netbuf_write_write(W, data, len) ? "fail" : "ok");
+				L2(print_wl2());
 			}
 			free(data);
 		} else if (hc_is("spin", 0)) {
-			if (W->reserved) {
+			if (W_RESERVED()) {
 				/* control may not return to the event loop with space reserved */
 				printf("contract");
 			} else {
@@ -550,11 +606,9 @@ main(void)
 				if (do_spin())
 					printf("spinfail ");
 				fmt_bytes(hex, sizeof(hex), peer, peerlen);
-				printf("spin r=%s f=%zu peer=%zu:%s sa=%zu | ", cbreclen ? cbrec : "-", failcbs,
+				printf("spin r=%s f=%zu peer=%zu:%s sa=%zu", cbreclen ? cbrec : "-", failcbs,
 				    peerlen, hex, sendused);
-				print_rl2();
-				printf(" ; ");
-				print_wl2();
+				L2(print_rl2(); printf(" ; "); print_wl2());
 			}
 		} else
 			printf("bad-op");
